@@ -63,6 +63,23 @@ Proof.
 Qed.
 Print Assumptions C02_local_decision_certified.
 
+(* (4) In the committee as a whole (Qbft/System.v: any committee of 3f+1 with f >= 1, <= f Byzantine
+       operators, any schedule, any admissible forged messages): every decision any correct operator
+       reports along a rewind-free execution is backed by a commit quorum - at least 2f+1 distinct
+       committee members, every HONEST one of which has itself broadcast a commit for exactly that round
+       and root - and the reported value hashes to that root. *)
+From SSV Require Import Qbft.System Qbft.SafetyCore Qbft.Safety.
+Theorem C02_reported_decisions_have_quorum : forall c0 byz h f vs tr,
+  NoDup (committee c0) -> length (committee c0) = (3 * f + 1)%nat ->
+  (length (filter byz (committee c0)) <= f)%nat -> quorum c0 = N.of_nat (2 * f + 1) -> (1 <= f)%nat ->
+  v_verify (var c0) = true ->
+  valid_trace c0 byz (no_rewind c0) (init c0 h vs) tr ->
+  forall i d, In (i, d) (reports c0 (init c0 h vs) tr) ->
+    exists rr, CQ (committee c0) byz (quorum c0) (sent (run_sys c0 (init c0 h vs) tr)) rr (c_root (co d)) /\
+               hash (c_full (co d)) = c_root (co d).
+Proof. intros c0 byz h f vs tr A B C D E F. intros Hv. eapply reported_decisions_have_quorum; eauto. Qed.
+Print Assumptions C02_reported_decisions_have_quorum.
+
 (* Non-vacuity: the 4-operator history of Qbft/Witness.v reaches a local decision. *)
 From SSV Require Import Qbft.Witness.
 Example C02_example :
